@@ -7,6 +7,7 @@ import traceback
 
 
 def main():
+    sys.set_int_max_str_digits(0)
     prop = sys.argv[1]
     job = json.loads(sys.stdin.read())
     want = str(job.get("hashseed", 0))
